@@ -15,6 +15,11 @@ import Marwood.Lemmas.CompileCorrect2Demo
 import Marwood.Lemmas.CompileCorrect2DemoCapture
 import Marwood.Lemmas.CompileCorrect2FailDemo
 import Marwood.Lemmas.CompileCorrect2ConcreteDemo
+import Marwood.Lemmas.CompileCorrect3Main
+import Marwood.Lemmas.CompileCorrect3Apply
+import Marwood.Lemmas.CompileCorrect3Embed
+import Marwood.Lemmas.CompileCorrect3Arity
+import Marwood.Lemmas.CompileCorrect3Demo
 /-!
 # C01 — evaluation agrees with the language semantics for core and derived forms
 
@@ -46,8 +51,12 @@ What is proved here and what is not (see `lib/props/c01.py` META.note):
   STAGE 2 (`compile_correct_stage2_partial`, `closure_call_stage2_partial`; `Lemmas/CompileCorrect2*.lean`):
   `lambda` with fixed arity, closure creation, calls and tail calls of closures, references and `set!` of
   lexical variables at any depth, success case, and its ERROR case (`compile_correct_stage2_error_partial`).
-  Rest parameters, internal definitions, quasiquote, call/cc, `eval`/`apply`, GC interleaving are open; the
-  agreement of the real pipeline with `Spec.Eval` is carried by the differential correspondence.
+  STAGE 3 (`compile_correct_stage3_partial`, `closure_call_stage3_rest_partial`,
+  `body_stage3_defines_partial`, `apply_redispatch_stage3_partial`; `Lemmas/CompileCorrect3*.lean`): rest
+  parameters (VARARG), internal definitions at the head of a body (read only after their definition), and the
+  re-dispatch of `apply`, success case. Quasiquote, call/cc, `eval`/`map`/`for-each`, the error case of stage 3
+  (except the arity error of a variadic call), GC interleaving are open; the agreement of the real pipeline with `Spec.Eval` is carried by the differential
+  correspondence.
 -/
 namespace Marwood.Proofs.C01
 open Marwood Marwood.Vm
@@ -786,5 +795,206 @@ theorem quoted_constant_mutation_spec :
                 L [s ['s','e','t','-','c','a','r','!'], L [s ['f']], .num (.fix 9)],
                 L [s ['f']]]
       = [.ok .void, .ok .void, .ok (L [.num (.fix 1), .num (.fix 2)])] := by decide +kernel
+
+/-! ## T01.3 STAGE 3 (partial): rest parameters, internal definitions, the `apply` re-dispatch
+
+`Lemmas/CompileCorrect3*.lean`: a second development over the same machine, compiler model, representation data
+(`RepData2`), world and code layout as stage 2 — stage 2 and its theorems are untouched; `F2 ⊆ F3`
+(`stage3_contains_stage2`). The induction is again on the fuel of the SPECIFICATION.
+
+What is new in the relations. `VR3`: stage-1 values, closures of ANY formals and leading definitions (`ClosOK3`),
+and heap pairs whose components are `VR3` values (the list VARARG builds may contain closures). `Inv3`: a related
+variable location may still hold the machine's `Undefined` marker (an internal definition that has not been
+evaluated); `EnvRep3 … us`: every name outside `us` denotes an INITIALISED slot (`InitM`). `Ext3` = `Ext2` + heap
+pairs and initialised slots are kept.
+
+Fragment `F3 G fuel c ns us tail e` = `F2` + `(lambda (x … . r) b …)`, `(lambda r b …)`, and bodies
+`(define y₁ e₁) … (define yₖ eₖ) b₁ … bₘ` (m ≥ 1; all parameters and defined names distinct). `us` is the set of
+bound names that may not be READ yet: in `eᵢ` and everything nested in it (lambda bodies included: a `lambda`
+may only capture readable names) the names `yᵢ … yₖ` do not occur. So internal definitions are covered in their
+`let*`-like use; (mutual) recursion through internal `define` is NOT (the closure would capture a name before its
+definition has been evaluated — sound in most programs, but not decidable by a rule this simple: with
+"initialisers that are lambda expressions may mention later names" `(define (g) z) (define y (g)) (define z 1)`
+reads `z` uninitialised). Why the restriction is needed: the machine leaves the slot `Undefined` and reads it
+without complaint, `Spec.Eval` reads `#<undefined>`; both print `#<undefined>`, but a global assigned that
+value becomes UNBOUND in the VM (`internal_define_read_before_init_differs`; R7RS: "it is an error").
+
+ASSUMED: `Laws3 D` = the heap laws of stage 2 (CLOSURE, ENTER, `envPut`, globals, observation of values) with
+`Ext3`, plus: ENTER leaves the slots of internal definitions `Undefined`; `heap.put` (VARARG) returns a pointer
+through which the same value is observed, and a fresh pair cell; stage-1 values are neither closures nor the
+re-dispatching builtins `apply eval force map for-each` (so these are outside the main theorem); `call` — the
+behaviour of the FIRST-ORDER builtins. All of `Laws3` is PROVED for the toy heap of
+`Lemmas/CompileCorrect3Toy.lean` (`laws3_toy`; allocation by `put`, CLOSURE/ENTER as in run.rs, no builtin), and
+every hypothesis of the main theorem is discharged there for `((lambda (a . r) r) 1 2 3)`
+(`demo_stage3_rest_runs`: VARARG collects `(2 3)`, ENTER, the body, RET; `acc` shows the list `(2 3)`) and for
+`((lambda (x) (define y (if x 1 2)) y) #t)` (`demo_stage3_define_runs`). On the concrete heap model `Laws3` has
+NOT been proved (open: the `put` laws and `Ext3.pairs/init` for the free-list allocator). -/
+
+open Marwood.Lemmas.CompileCorrect Marwood.Lemmas.CompileCorrect2 Marwood.Lemmas.CompileCorrect3 in
+/-- **T01.3 stage 3, partial.** The statement of stage 2 for the fragment `F3`: code compiled for `e ∈ F3`, a heap
+    that represents `σ` (`Inv3`), an environment that represents `ρ` with every readable name initialised
+    (`EnvRep3 … us`); if `Spec.Eval` evaluates `e` to `w`, `σ'`, the machine runs — `VARARG` collecting the rest
+    arguments into a fresh list, `ENTER` creating the slots of the internal definitions, each `define` storing into
+    its slot — to a state that represents `(w, σ')` in a world `W' ⊇ W` (`Run3`), or, after a tail call of a
+    closure, to the state the `RET` of the current activation would have left (`Ret3`). -/
+theorem compile_correct_stage3_partial {H : Type} {ops : HeapOps H} {D : RepData2 ops} (L : Laws3 D)
+    (f : Nat) (cst : CState) (c : Ctx) (base : Nat) (tail : Bool) (e : Datum) (cst' : CState) (code : List BC)
+    (ρ : Env) (us : Text → Prop) (hf : F3 D.setG f c (bound ρ) us tail e) (hcx : CtxOK c)
+    (hcomp : compileExpr f cst c base tail e = .ok (cst', code)) (hpre : cst'.lambdas <+: D.final)
+    (n : Nat) (σ : Spec.Eval.St) (w : Val) (σ' : Spec.Eval.St) (hev : (evalN n).eval e ρ σ = .ok w σ')
+    (W : World) (s : Vm.St H) (fr : Frame) (hc : CodeAt2 D c.envmap s.heap σ.store s.ipL base code)
+    (hip : s.ipO = base) (hi : Inv3 D W s.heap σ) (her : EnvRep3 ops W s.heap c s.ep ρ us) (hw : SWF s.stack)
+    (hfr : tail = true → FrameAt s.stack s.bp fr) :
+    ∃ W' s', W.le W' ∧ Out3 D W' s code.length σ σ' w tail fr s' :=
+  compileExpr_correct3 L f cst c base tail e cst' code ρ us hf hcx hcomp hpre n σ w σ' hev W s fr hc hip hi her hw hfr
+
+open Marwood.Lemmas.CompileCorrect Marwood.Lemmas.CompileCorrect2 Marwood.Lemmas.CompileCorrect3 in
+/-- `F3 ⊇ F2`: every stage-2 expression is a stage-3 expression (no unreadable names). -/
+theorem stage3_contains_stage2 {G : Text → Prop} {f : Nat} {c : Ctx} {ns : Text → Prop} {t : Bool} {e : Datum}
+    (h : F2 G f c ns t e) : F3 G f c ns (fun _ => False) t e := F2.toF3 h
+
+open Marwood.Lemmas.CompileCorrect Marwood.Lemmas.CompileCorrect2 Marwood.Lemmas.CompileCorrect3 in
+/-- **REST PARAMETERS: the call of a closure `(lambda (x … . r) body …)` / `(lambda r body …)`.** From the state
+    `CALL`/`TCALL` leaves (`ws.length` operands, their number, `%ep`, the return address; `ip` at the closure's
+    lambda, whose prologue is `VARARG; ENTER`): if the specification's `apply` — which binds `r` to a fresh list of
+    the arguments beyond the fixed ones — returns, the machine runs VARARG (the three cases of run.rs: too few
+    arguments cannot occur here; exactly one extra operand is wrapped in place; otherwise the extra operands are
+    popped, consed onto `()` last to first, and the frame is rewritten to `ps.length + 1` operands), ENTER, the
+    body, RET, and ends in the caller with the operands popped, `%ep`/`%bp` restored and a representation of the
+    result in `acc`. (`closure_call_stage3_partial` is the same for every closure of stage 3.) -/
+theorem closure_call_stage3_rest_partial {H : Type} {ops : HeapOps H} {D : RepData2 ops} (L : Laws3 D) (n : Nat)
+    (ps : List Text) (r : Text) (body : List Datum) (ρc : Env) (ws : List Val) (σ : Spec.Eval.St) (w : Val)
+    (σ' : Spec.Eval.St) (hap : (evalN n).apply (.closure ps (some r) body ρc) ws σ = .ok w σ')
+    (W : World) (s : Vm.St H) (lam cenv : Nat) (vs : List VCell) (st0 : Stack) (epc lc oc : Nat)
+    (hcal : ops.callee s.heap s.acc = .closure lam cenv) (hclos : ClosOK3 D W s.heap lam cenv ps (some r) body ρc)
+    (hi : Inv3 D W s.heap σ) (hvs : All2 (VR3 D W s.heap σ.store) vs ws) (hipL : s.ipL = lam) (hipO : s.ipO = 0)
+    (hst : LiveEq (callFrame st0 vs epc lc oc) s.stack) (hw0 : SWF st0) (hw : SWF s.stack) :
+    ∃ W' s', W.le W' ∧ Steps ops s s' ∧ s'.ipL = lc ∧ s'.ipO = oc ∧ s'.ep = epc ∧ s'.bp = s.bp ∧
+      LiveEq st0 s'.stack ∧ SWF s'.stack ∧ VR3 D W' s'.heap σ'.store s'.acc w ∧ Inv3 D W' s'.heap σ' ∧
+      Ext3 D s.heap σ.store s'.heap σ'.store :=
+  closureCall_correct3 L n ps (some r) body ρc ws σ w σ' hap W s lam cenv vs st0 epc lc oc hcal hclos hi hvs hipL hipO
+    hst hw0 hw
+
+open Marwood.Lemmas.CompileCorrect Marwood.Lemmas.CompileCorrect2 Marwood.Lemmas.CompileCorrect3 in
+/-- the call of any stage-3 closure (fixed arity or rest parameter, with or without internal definitions) -/
+theorem closure_call_stage3_partial {H : Type} {ops : HeapOps H} {D : RepData2 ops} (L : Laws3 D) (n : Nat) :
+    CallOK3 D n := closureCall_correct3 L n
+
+open Marwood.Lemmas.CompileCorrect Marwood.Lemmas.CompileCorrect2 Marwood.Lemmas.CompileCorrect3 in
+/-- the VARARG instruction alone: the frame rewrite and the list it builds (`Lemmas/CompileCorrect3VarArg.lean`) -/
+theorem vararg_frame_stage3_partial {H : Type} {ops : HeapOps H} {D : RepData2 ops} (L : Laws3 D) {W : World}
+    {s : Vm.St H} {S : Array Cell} {req : Nat} {vs : List VCell} {ws : List Val} {st0 : Stack} {epc lc oc : Nat}
+    {lv : Val} (hl : ops.isLambda s.heap s.ipL = true) (h0 : ops.fetch s.heap s.ipL s.ipO = some (.opcode .varArg))
+    (hinfo : ops.lambdaInfo s.heap s.ipL = some ⟨req + 1⟩) (hsrx : D.SRx s.heap S)
+    (hvs : All2 (VR3 D W s.heap S) vs ws) (hreq : req ≤ vs.length) (hlist : ListIn S lv (ws.drop req))
+    (hst : LiveEq (callFrame st0 vs epc lc oc) s.stack) (hw0 : SWF st0) (hw : SWF s.stack) :
+    ∃ h' lst st', Vm.step ops s = .ok ({ s with heap := h', stack := st', ipO := s.ipO + 1 }, false) ∧
+      LiveEq (callFrame st0 (vs.take req ++ [.ptr lst]) epc lc oc) st' ∧ SWF st' ∧
+      VR3 D W h' S (.ptr lst) lv ∧ Step3 D s.heap S h' :=
+  varArg_ok L hl h0 hinfo hsrx hvs hreq hlist hst hw0 hw
+
+open Marwood.Lemmas.CompileCorrect Marwood.Lemmas.CompileCorrect2 Marwood.Lemmas.CompileCorrect3 in
+/-- **INTERNAL DEFINITIONS: a body `(define y₁ e₁) … (define yₖ eₖ) b₁ … bₘ`.** In the activation ENTER created
+    (the slots of `ints = [y₁ … yₖ]` exist and are related to the variables `Spec.Eval`'s `evalBody` allocated; the
+    names `us ⊇ ints` are not readable yet) the machine runs the compiled body: each `eᵢ`, then
+    `MOV %acc <slot yᵢ>; MOV-IMMEDIATE void %acc` — after which `yᵢ` is readable —, then the expressions, the last
+    one in tail position; `Spec.Eval` evaluates the definitions in order in the body's scope (`evalBodyForms`). -/
+theorem body_stage3_defines_partial {H : Type} {ops : HeapOps H} {D : RepData2 ops} (L : Laws3 D) (n : Nat)
+    (body : List Datum) (f : Nat) (cst : CState) (c : Ctx) (base : Nat) (bodyD : Datum) (cst' : CState)
+    (code : List BC) (ρ : Env) (us : Text → Prop) (ints : List Text)
+    (hfb : F3B D.setG f c (bound ρ) us ints bodyD) (hcx : CtxOK c)
+    (hcomp : compileBody f cst c base bodyD = .ok (cst', code)) (hpre : cst'.lambdas <+: D.final)
+    (hpl : properList bodyD = some body)
+    (σ : Spec.Eval.St) (w : Val) (σ' : Spec.Eval.St)
+    (hev : Spec.Eval.evalBodyForms (evalN n) ρ true body σ = .ok w σ')
+    (W : World) (s : Vm.St H) (fr : Frame) (hc : CodeAt2 D c.envmap s.heap σ.store s.ipL base code)
+    (hip : s.ipO = base) (hi : Inv3 D W s.heap σ) (her : EnvRep3 ops W s.heap c s.ep ρ us) (hw : SWF s.stack)
+    (hfr : FrameAt s.stack s.bp fr) :
+    ∃ W' s', W.le W' ∧ Out3 D W' s code.length σ σ' w true fr s' :=
+  body3_ok L (both3_ok L n).1.nontail (both3_ok L n).1 body f cst c base bodyD cst' code ρ us ints true hfb hcx hcomp
+    hpre hpl (fun _ => rfl) σ w σ' hev W s fr hc hip hi her hw hfr
+
+open Marwood.Lemmas.CompileCorrect Marwood.Lemmas.CompileCorrect2 Marwood.Lemmas.CompileCorrect3 in
+/-- **`apply` RE-DISPATCH: `(apply f a₁ … aₖ lst)` at its `CALL`/`TCALL`.** The operands `f, a₁, …, aₖ, lst` and
+    their number are on the stack (`f` a heap pointer, as every closure CLOSURE creates is), `acc` holds the
+    `apply` builtin. If the specification's `apply` returns — `lst` is a proper list and `f` applied to `a₁ … aₖ`
+    followed by its elements returns `w` — and the list is shorter than the guard of the MODEL's element loop
+    (100000 iterations, there to keep `Machine.lean` total on cyclic lists; the Rust loop has no bound), then one
+    step later the same instruction runs again with `f` in `acc` and the operands `a₁ … aₖ, e₁ … eₘ` on the stack,
+    and the run ends as that call ends (`DispOut`: behind the instruction with the operands popped and a
+    representation of `w` in `acc`; or, for `TCALL` of a closure, in the caller of the current activation). `f`
+    may be a closure of stage 3 (any formals: the interplay with VARARG is covered) or a first-order builtin.
+    ASSUMED besides `Laws3`: `ListLaws` (a stage-1 representation of `()` / of a pair derefs to `Nil` / to a pair
+    cell whose components represent car and cdr). Not integrated into the fragment of the main theorem: the
+    guard is a bound on every list the program applies, which is a property of the run. -/
+theorem apply_redispatch_stage3_partial {H : Type} {ops : HeapOps H} {D : RepData2 ops} (L : Laws3 D)
+    (LL : ListLaws D) {n : Nat} {tail : Bool} {em : List (Text × Source)} {W : World} {s : Vm.St H} {fr : Frame}
+    {stk0 : Stack} {σ σ' : Spec.Eval.St} {g lastv w : Val} {pg : Nat} {vl : VCell} {mid : List VCell}
+    {mws : List Val} {id : Nat}
+    (hc : CodeAt2 D em s.heap σ.store s.ipL s.ipO [BC.op (if tail = true then .tcallAcc else .callAcc)])
+    (hcal : ops.callee s.heap s.acc = .builtin id) (hkind : ops.builtinKind s.heap id = .apply)
+    (hg : VR3 D W s.heap σ.store (.ptr pg) g) (hmid : All2 (VR3 D W s.heap σ.store) mid mws)
+    (hlast : VR3 D W s.heap σ.store vl lastv) (hi : Inv3 D W s.heap σ)
+    (hst : LiveEq ((pushAll stk0 (.ptr pg :: mid ++ [vl])).push (.argc (mid.length + 2))) s.stack)
+    (hw0 : SWF stk0) (hw : SWF s.stack) (hfrm : tail = true → FrameAt stk0 s.bp fr)
+    (hap : (evalN (n + 1)).apply (.prim .apply) (g :: mws ++ [lastv]) σ = .ok w σ')
+    (hbound : ∀ xs, Spec.Eval.listOfVal (σ.store.size + 1) σ.store lastv = some xs → xs.length + 1 ≤ 100000) :
+    ∃ W' s', W.le W' ∧ DispOut D W' s stk0 σ σ' w tail fr s' :=
+  apply_redispatch3 L LL hc hcal hkind hg hmid hlast hi hst hw0 hw hfrm hap hbound
+
+open Marwood.Lemmas.CompileCorrect2 Marwood.Lemmas.CompileCorrect3 Marwood.Lemmas.CompileCorrect3.Toy in
+/-- **`Laws3` is satisfiable**: every field is a theorem for the toy heap of `Lemmas/CompileCorrect3Toy.lean`. -/
+theorem laws3_toy (final : List LambdaM) : Laws3 (tD3 final) := laws3 final
+
+open Marwood.Lemmas.CompileCorrect2 Marwood.Lemmas.CompileCorrect3 Marwood.Lemmas.CompileCorrect3.Toy in
+/-- **Non-vacuity, rest parameter**: `((lambda (a . r) r) 1 2 3)` — the run exists, and `acc` shows a heap pair with
+    car `2` whose cdr is a pair with car `3` and cdr `()`. -/
+theorem demo_stage3_rest_runs :
+    ∃ W' s', Run3 demoDR W' demoStateR 19 demoSt demoStR' (.pair 2) s' ∧
+      ∃ pa pd pa' pd', tDeref s'.heap s'.acc = .pair pa pd ∧ tDeref s'.heap (.ptr pa) = .opaque "n2" ∧
+        tDeref s'.heap (.ptr pd) = .pair pa' pd' ∧ tDeref s'.heap (.ptr pa') = .opaque "n3" ∧
+        tDeref s'.heap (.ptr pd') = .nil := demo_vararg_acc
+
+open Marwood.Lemmas.CompileCorrect2 Marwood.Lemmas.CompileCorrect3 Marwood.Lemmas.CompileCorrect3.Toy in
+/-- **Non-vacuity, internal definition**: `((lambda (x) (define y (if x 1 2)) y) #t)` evaluates to `1`. -/
+theorem demo_stage3_define_runs :
+    ∃ W' s', Run3 demoDD W' demoStateD 11 demoSt demoStD' (.int 1) s' ∧ tDeref s'.heap s'.acc = .opaque "n1" :=
+  demo_define_acc
+
+/-- the excluded case is a real difference: an internally defined variable read before its definition has been
+    evaluated holds `#<undefined>` in `Spec.Eval`; assigned to a global the value stays there (third result
+    `#<undefined>`), while marwood's global becomes UNBOUND (`Undefined` is its unbound marker): the real VM
+    answers `ok void`, `ok void`, `err unbound` (`harness/target/release/eval run`, 2026-09-26). R7RS: it is an
+    error to refer to the variable before its initialisation. -/
+theorem internal_define_read_before_init_differs :
+    results 20 [L [s k_define, s ['g','g'], .num (.fix 0)],
+                L [L [s k_lambda, L [], L [s k_define, s ['y'], s ['z']], L [s k_define, s ['z'], .num (.fix 1)],
+                      L [s k_setBang, s ['g','g'], s ['y']]]],
+                s ['g','g']]
+      = [.ok .void, .ok .void, .ok .undefined] := by decide +kernel
+
+/-- why "initialisers that are lambda expressions may mention later names" is not a sound exclusion rule:
+    `(define (g) z) (define y (g)) (define z 1)` — every initialiser is a lambda expression or mentions only
+    earlier names, yet `z` is read before its definition has been evaluated (`Spec.Eval`: `y` is `#<undefined>`; the
+    real VM prints the same). Stage 3 therefore forbids a `lambda` to capture a name that is not readable yet. -/
+theorem lambda_initialiser_rule_unsound :
+    results 20 [L [L [s k_lambda, L [], L [s k_define, L [s ['g']], s ['z']], L [s k_define, s ['y'], L [s ['g']]],
+                      L [s k_define, s ['z'], .num (.fix 1)], s ['y']]]]
+      = [.ok .undefined] := by decide +kernel
+
+open Marwood.Lemmas.CompileCorrect Marwood.Lemmas.CompileCorrect2 Marwood.Lemmas.CompileCorrect3 in
+/-- **Rest parameters, ERROR case (arity).** A closure `(lambda (x₁ … xₖ . r) …)` called with fewer than `k`
+    arguments: `Spec.Eval`'s `apply` fails with class `arity`; the machine, in the state `CALL`/`TCALL` left, fails at
+    its next instruction — `VARARG`, first case of run.rs — with `InvalidNumArgs`, before anything is allocated.
+    (The only error case of stage 3 that is proved.) -/
+theorem closure_call_stage3_rest_arity_error_partial {H : Type} {ops : HeapOps H} {D : RepData2 ops} (L : Laws3 D)
+    {n : Nat} {ps : List Text} {r : Text} {body : List Datum} {ρc : Env} {ws : List Val} {σ : Spec.Eval.St}
+    {W : World} {s : Vm.St H} {lam cenv : Nat} {vs : List VCell} {st0 : Stack} {epc lc oc : Nat}
+    (hclos : ClosOK3 D W s.heap lam cenv ps (some r) body ρc) (hi : Inv3 D W s.heap σ)
+    (hvs : All2 (VR3 D W s.heap σ.store) vs ws) (hipL : s.ipL = lam) (hipO : s.ipO = 0)
+    (hst : LiveEq (callFrame st0 vs epc lc oc) s.stack) (hw0 : SWF st0) (hfew : ws.length < ps.length) :
+    (∃ σ', (evalN (n + 1)).apply (.closure ps (some r) body ρc) ws σ = .err .arity σ') ∧
+    Vm.step ops s = .err .invalidNumArgs :=
+  closure_call_rest_arity L hclos hi hvs hipL hipO hst hw0 hfew
 
 end Marwood.Proofs.C01
